@@ -7,7 +7,31 @@ Inductive xobs := XV (t : otree) | XE (r : ereason) | XPanic | XHang.
 Inductive case :=
 | CRead (o : eopts) (root : value) (name : string) (idx : Z) (observed : obs)   (* Config.String *)
 | CUnpackDyn (o : eopts) (root : value) (observed : xobs)                         (* Unpack into map[string]interface{} *)
-| CFlat (o : eopts) (root : value) (observed : option (list string)).            (* FlattenedKeys; None = it did not return *)
+| CFlat (o : eopts) (root : value) (observed : option (list string))             (* FlattenedKeys; None = it did not return *)
+| CExpr (o : nopts) (s : string) (observed : option value).
+    (* the text s stored as the setting "v": what NewFrom made of it (None = rejected) *)
+
+(** escapes outside any ${...}: "$$" is a dollar, "$}" a closing brace, a last "$" stays.  A
+    specification by itself (it does not use the parser model), for texts without "${" *)
+Fixpoint unescape (s : string) : string :=
+  match s with
+  | String a r =>
+    if Ascii.eqb a "$"%char then
+      match r with
+      | String b r' =>
+        if Ascii.eqb b "$"%char then String "$"%char (unescape r')
+        else if Ascii.eqb b "}"%char then String "}"%char (unescape r')
+        else String a (unescape r)
+      | EmptyString => s
+      end
+    else String a (unescape r)
+  | EmptyString => EmptyString
+  end.
+Fixpoint has_open (s : string) : bool :=
+  match s with
+  | String a r => (Ascii.eqb a "$"%char && match r with String b _ => Ascii.eqb b "{"%char | _ => false end) || has_open r
+  | EmptyString => false
+  end.
 
 Definition fuel_for (o : eopts) (root : value) : nat :=
   (40 + vsize root + fold_right (fun e n => Nat.add (vsize e) n) O (eo_envs o))%nat.
@@ -118,6 +142,13 @@ Definition model_agrees (c : case) : bool :=
     | OutOfModel, _ => true
     | _, _ => false
     end
+  | CExpr o s obs =>
+    match normalize o (GMap true [(KStr "v", GStr s)]), obs with
+    | Ok m, Some d => value_eqb m d
+    | Err _ _, None => true
+    | OutOfModel, _ => true
+    | _, _ => false
+    end
   end.
 
 Definition skipped (c : case) : bool :=
@@ -125,6 +156,7 @@ Definition skipped (c : case) : bool :=
   | CRead _ _ _ _ _ => match model_read c with OSkip => true | _ => false end
   | CUnpackDyn o root _ => match unpack_root o root with OutOfModel => true | _ => false end
   | CFlat o root _ => match flattened_keys_dyn o "." (fuel_for o root) root with OutOfModel => true | _ => false end
+  | CExpr o s _ => match normalize o (GMap true [(KStr "v", GStr s)]) with OutOfModel => true | _ => false end
   end.
 
 Definition prop_holds (c : case) : bool :=
@@ -132,6 +164,15 @@ Definition prop_holds (c : case) : bool :=
   | CRead _ _ _ _ OPanic => false
   | CUnpackDyn _ _ XPanic | CUnpackDyn _ _ XHang => false
   | CFlat _ _ None => false
+  (* a text without "${" is a literal: it reads back with its escapes undone, wherever they stand *)
+  | CExpr _ s obs =>
+    if has_open s then true
+    else match obs with
+         | Some (VSub [(_, (_, x))] None) =>
+           (* (the empty text is stored as an expression of no pieces; it reads as "") *)
+           value_eqb x (VStr (unescape s)) || (String.eqb s "" && value_eqb x (VSplice (ESplice [])))
+         | _ => false
+         end
   | _ => true
   end.
 
